@@ -45,7 +45,10 @@ CatRows(s, q, r, c) == IF r > q.b THEN <<>>
 TextOf(s, q) == CatRows(s, q, q.t, q.l)
 
 \* state invariants (every state, model and observed)
-InvNames == <<"Rectangular", "RegionsInside", "RegionsDisjoint", "SpannedIffCovered", "FlagsMatchReaders", "FrameIsSum", "EveryCellHasParagraph">>
+\* (the frame size is NOT a state invariant: the caller may resize the graphic frame itself - action "frame" - and a document may store any
+\* extent.  "Keeps the frame size equal to the sum" is the post-condition SizeSet of a row-height / column-width change, whatever the frame
+\* was before; CreateHolds states it for a new table.)
+InvNames == <<"Rectangular", "RegionsInside", "RegionsDisjoint", "SpannedIffCovered", "FlagsMatchReaders", "EveryCellHasParagraph">>
 InvHolds(n, s) ==
   CASE n = "Rectangular"      -> Len(s.rowh) = R(s) /\ \A r \in 1..R(s) : Len(s.rows[r]) = C(s)
     [] n = "RegionsInside"    -> \A q \in Regions(s) : q.b <= R(s) /\ q.r <= C(s) /\ ~Single(q)
@@ -54,7 +57,6 @@ InvHolds(n, s) ==
     [] n = "FlagsMatchReaders" -> \A rc \in Cells(s) : LET c == At(s, rc) IN
                                    /\ c.o => (c.rs = c.sh /\ c.gs = c.sw)
                                    /\ (~c.o /\ ~c.sp) => (c.gs = 1 /\ c.rs = 1 /\ ~c.hm /\ ~c.vm)
-    [] n = "FrameIsSum"       -> s.fw = SumSeq(s.colw) /\ s.fh = SumSeq(s.rowh)
     [] n = "EveryCellHasParagraph" -> \A rc \in Cells(s) : Len(At(s, rc).txt) >= 1
 InvFailing(s) == {InvNames[i] : i \in {j \in DOMAIN InvNames : ~InvHolds(InvNames[j], s)}}
 Inv(s) == InvFailing(s) = {}
@@ -64,6 +66,7 @@ Inv(s) == InvFailing(s) = {}
 \*   [op |-> "mergeOther", a |-> <<r,c>>]              other_cell belongs to a different table
 \*   [op |-> "split", a |-> <<r,c>>]
 \*   [op |-> "colw", i |-> c, v |-> w]    [op |-> "rowh", i |-> r, v |-> h]
+\*   [op |-> "frame", w |-> cx, h |-> cy]              the graphic frame itself is resized (shape.width / shape.height)
 \* outcome of an action is "ok" or "ValueError"
 MergeRefused(s, q) == RCells(q) \cap Covered(s) # {}
 Outcome(s, a) ==
@@ -103,6 +106,7 @@ PostHolds(n, s, a, out, t) ==
                                                         /\ t.rows = s.rows /\ t.rowh = s.rowh /\ t.fh = s.fh
                                     [] a.op = "rowh" -> t.rowh = [s.rowh EXCEPT ![a.i] = a.v] /\ t.fh = SumSeq(t.rowh)
                                                         /\ t.rows = s.rows /\ t.colw = s.colw /\ t.fw = s.fw
+                                    [] a.op = "frame" -> t.fw = a.w /\ t.fh = a.h /\ t.rows = s.rows /\ t.colw = s.colw /\ t.rowh = s.rowh
                                     [] OTHER -> TRUE
 PostFailing(s, a, out, t) == {PostNames[i] : i \in {j \in DOMAIN PostNames : ~PostHolds(PostNames[j], s, a, out, t)}}
 Post(s, a, out, t) == PostFailing(s, a, out, t) = {}
@@ -158,6 +162,7 @@ ImplStep(s, a) ==
     [] a.op = "split"      -> ImplSplit(s, a.a)
     [] a.op = "colw"       -> LET cw == [s.colw EXCEPT ![a.i] = a.v] IN [s EXCEPT !.colw = cw, !.fw = SumSeq(cw)]
     [] a.op = "rowh"       -> LET rh == [s.rowh EXCEPT ![a.i] = a.v] IN [s EXCEPT !.rowh = rh, !.fh = SumSeq(rh)]
+    [] a.op = "frame"      -> [s EXCEPT !.fw = a.w, !.fh = a.h]
 ImplOutcome(s, a) ==
   CASE a.op = "merge"      -> IF \E rc \in RCells(Rect(a.a, a.b)) : ImplMerged(At(s, rc)) THEN "ValueError" ELSE "ok"
     [] a.op = "mergeOther" -> "ValueError"
